@@ -278,7 +278,7 @@ def statement_menu(size):
     if med:
         out += [["LAGTIME", N("OFF")], ["LAGTIME", N("OFF", "ON")]]
     # TRANSITS
-    tc_small = [["n", 1], ["range", 1, 3], ["list", [0, 2]]]
+    tc_small = [["n", 1], ["range", 1, 3], ["list", [0, 2]], ["list", [1, 5, 3]]]
     tc_med = tc_small + [["n", 0], ["list", [3, 1, 2]]]
     tc_full = tc_med + [["n", 3], ["range", 0, 2], ["list", [1, 3]]]
     dp_small = [None, N("NODEPOT"), W]
@@ -289,7 +289,7 @@ def statement_menu(size):
         for d in dps:
             out.append(["TRANSITS", c, d])
     # PERIPHERALS
-    pc_small = [["n", 1], ["range", 0, 2], ["list", [2, 0]]]
+    pc_small = [["n", 1], ["range", 0, 2], ["list", [2, 0]], ["list", [0, 3, 2]]]
     pc_med = pc_small + [["n", 0], ["list", [1, 2]]]
     pc_full = pc_med + [["n", 2], ["range", 1, 3], ["list", [3, 1, 2]]]
     pm_small = [None, N("MET"), W]
